@@ -32,6 +32,19 @@ theorem load_exact (ih : Int) (hih : 1 ≤ ih) (valz : List Val) (s0 : Sys)
     ∃ v, (s0.run evs).truth h = some v ∧ loadValidators (s0.run evs).db.vals h = .ok v :=
   load_of_inv _ (inv_run s0 (inv_init ih hih valz s0 h0) evs) h hb ht
 
+/-- **load_exact (handshake genesis).** The same for a chain started by the node's handshake with
+an application whose InitChain returns its own validator list (`Handshaker.ReplayBlocks`):
+exactness rests on `NextValidators` being exactly ONE rotation ahead of `Validators` in the first
+saved state (`Initial.hnext`). -/
+theorem load_exact_handshake (ih : Int) (hih : 1 ≤ ih) (valz iv : List Val) (s0 : Sys)
+    (h0 : Sys.initHandshake ih valz iv = some s0) (evs : List Ev) (h : Int)
+    (hb : (s0.run evs).base ≤ h) (ht : h ≤ tip (s0.run evs).st) :
+    ∃ v, (s0.run evs).truth h = some v ∧ loadValidators (s0.run evs).db.vals h = .ok v :=
+  load_of_inv _ (inv_run s0 (inv_initHandshake ih hih valz iv s0 h0) evs) h hb ht
+
+/-- non-vacuity: empty genesis list, validators from InitChain -/
+example : (Sys.initHandshake 5 [] [⟨1, 10, 0⟩, ⟨2, 1, 0⟩]).isSome = true := by decide
+
 /-- the recorded set at the tip is the state's `NextValidators`, and the retained range is
 never empty -/
 theorem truth_tip (ih : Int) (hih : 1 ≤ ih) (valz : List Val) (s0 : Sys)
@@ -271,25 +284,18 @@ theorem updateState_reach (st st' : State) (H : Int) (ch : List Val) (hr : State
         obtain ⟨s1, hs1, hr1, _⟩ := priorities_no_clip _ hr2
         rw [hs1] at hinc; cases hinc; exact hr1
 
-/-- **chain_reach.** Along every history (genesis, blocks with arbitrary update batches, prunes)
-the current and next validator sets are well-formed (unique addresses, positive powers, canonical
-order, `0 < total ≤ MaxTotalVotingPower`, non-empty) with priorities within
-`3·MaxTotalVotingPower` — so `priorities_no_clip` applies at every height. -/
-theorem chain_reach (ih : Int) (valz : List Val) (s0 : Sys) (h0 : Sys.init ih valz = some s0)
-    (evs : List Ev) : StateReach (s0.run evs).st := by
-  have hinit : StateReach s0.st := by
-    unfold Sys.init at h0
-    split at h0
-    · cases h0
-    · rename_i st hst
-      split at h0
-      · cases h0
-      · rename_i hne
-        split at h0
-        · cases h0
-        · cases h0
-          exact genesis_reach ih valz st hne hst
-  clear h0
+theorem ofInitial_st (ih : Int) (st : State) (s0 : Sys) (h : Sys.ofInitial ih st = some s0) :
+    s0.st = st ∧ st.validators.vals ≠ [] := by
+  unfold Sys.ofInitial at h
+  split at h
+  · cases h
+  · rename_i hne
+    split at h
+    · cases h
+    · cases h; exact ⟨rfl, hne⟩
+
+theorem run_reach (s0 : Sys) (hinit : StateReach s0.st) (evs : List Ev) :
+    StateReach (s0.run evs).st := by
   unfold Sys.run
   induction evs generalizing s0 with
   | nil => exact hinit
@@ -314,6 +320,47 @@ theorem chain_reach (ih : Int) (valz : List Val) (s0 : Sys) (h0 : Sys.init ih va
         | none => exact hinit
         | some db' => exact updateState_reach _ _ _ _ hinit hu
     | prune a b => exact hinit
+
+/-- **chain_reach.** Along every history (genesis, blocks with arbitrary update batches, prunes)
+the current and next validator sets are well-formed (unique addresses, positive powers, canonical
+order, `0 < total ≤ MaxTotalVotingPower`, non-empty) with priorities within
+`3·MaxTotalVotingPower` — so `priorities_no_clip` applies at every height. -/
+theorem chain_reach (ih : Int) (valz : List Val) (s0 : Sys) (h0 : Sys.init ih valz = some s0)
+    (evs : List Ev) : StateReach (s0.run evs).st := by
+  apply run_reach
+  unfold Sys.init at h0
+  split at h0
+  · cases h0
+  · rename_i st hst
+    obtain ⟨e, hne⟩ := ofInitial_st ih st s0 h0
+    rw [e]; exact genesis_reach ih valz st hne hst
+
+/-- `chain_reach` for a chain whose first sets come from the application's InitChain response -/
+theorem chain_reach_handshake (ih : Int) (valz iv : List Val) (s0 : Sys)
+    (h0 : Sys.initHandshake ih valz iv = some s0) (evs : List Ev) :
+    StateReach (s0.run evs).st := by
+  apply run_reach
+  unfold Sys.initHandshake at h0
+  split at h0
+  · cases h0
+  · rename_i st hst
+    split at h0
+    · rename_i st' hhs
+      obtain ⟨e, hne⟩ := ofInitial_st ih st' s0 h0
+      rw [e]
+      rcases handshakeInit_ok _ _ _ _ hhs with ⟨_, e2⟩ | ⟨vs, nx, hvs, hnx, e2⟩
+      · subst e2; exact genesis_reach ih valz st' hne hst
+      · subst e2
+        have hiv : iv ≠ [] := by
+          intro e3; subst e3
+          have : vs = VSet.empty := by
+            simp [newValidatorSet, updateWithChangeSet] at hvs; exact hvs.symm
+          rw [this] at hne; exact hne rfl
+        have hr := newValidatorSet_reach iv vs hiv hvs
+        obtain ⟨s1, hs1, hr1, _⟩ := priorities_no_clip vs hr
+        rw [hs1] at hnx; cases hnx
+        exact ⟨hr, hr1⟩
+    · cases h0
 
 /-- a reachable set taken from a replayed run of the real state store (height 200007 of
 `replays/C08-oracle-59c8d9950487550f.json`, addresses renumbered in order) -/
